@@ -87,7 +87,7 @@ def run(res, replay=None):
             cases.append({"op": op, "args": vs, "scale": scale, "off": off})
         else:
             c = vec(scale, off)
-            r = scale * rng.choice([0.5, 1.0, rng.unit() + 0.01])
+            r = scale * rng.choice([0.5, 1.0, rng.unit() + 0.01, 0.0])   # 0: the zero-size spheres the API hands out (Sphere::EMPTY, one boundary point)
             x = [c[k] + scale * rng.uniform(-2, 2) for k in range(3)]
             cases.append({"op": op, "args": [c, x], "radius": r, "scale": scale, "off": off})
     wd = os.path.join(C.CACHE, "run", "c19")
